@@ -156,6 +156,27 @@ MISSED_FIRST = {
     "C18-r9-twist-Twist3": "scalar multiples (int and float, both orders) of a Twist3 holding several unit twists",
     "C19-r9-geom3d-Plucker": "real-valued point pairs down to 1e-3 apart at coordinates up to 1e3",
     "C20-r9-spatialvector-SpatialInertia": "point-mass form `SpatialInertia(m, r)` (events judged by `ExactSpatial`)",
+    # round 10
+    "C01-r10-pose3d-SE3": "named object-taking constructors (`SE3.SO3`, `SE3.SO3(t=)`, `SE3.Rt`) in the object-constructor matrix",
+    "C02-r10-transforms3d-trlog": "twists compared as motions against the MATRICES they were built from (`generates`, `product-motion`, `inverse-motion`); angle ladder 1e-5..1e-3",
+    "C02-r10-twist-Twist2": "laws with one operand holding two values (1 x N, N x 1)",
+    "C04-r10-transforms3d-angvec2r": "axis-length tags 1e-9 and 2e-7 in `Ctor` (`VLens`)",
+    "C07-r10-transforms2d-isrot2": "`nonorth` realised as a shear that keeps unit-length columns and a positive determinant",
+    "C07-r10-transformsNd-isskew": "algebra elements of magnitude 1e12 with an absolute mismatch (`notskew`, `isskew` arguments)",
+    "C08-r10-super_pose-SMPose": "operand variant `same-object` (x op x) for every same-class cell of `Dispatch`",
+    "C09-r10-quaternion-Quaternion": "caught by C14: multi-valued `Quaternion.unit()` with a unit first value",
+    "C09-r10-super_pose-SMPose": "caught by C06 (row-vector point with a multi-valued pose)",
+    "C11-r10-super_pose-SMPose": "routes with the end pose held as the second value of a two-valued object",
+    "C12-r10-quaternion-Quaternion": "nearly-real ladder |v|/|s| = 1e-8..1e-2, both signs (found the `Quaternion.log` defect, repaired in 7a6dd86)",
+    "C13-r10-transforms3d-tr2delta": "laws on ONE array kept by the caller and used again after `tr2delta`",
+    "C13-r10-vectors-unittwist_norm": "translational twists with a rounding-noise rotational part",
+    "C14-r10-quaternion-UnitQuaternion": "`UnitQuaternion(s, v)` form, scalar part exactly +-1",
+    "C14-r10-quaternions-unit": "nearly unit quaternions on a ladder of norm drifts 1e-12..1e-2",
+    "C15-r10-pose2d-SO2": "`Api.UnitOut` accessors on multi-valued objects",
+    "C15-r10-transforms3d-troty": "`troty(t=)`, `trotz(t=)`, `SE3.Rx/Ry/Rz(t=)` entries in `Api`",
+    "C18-r10-twist-Twist3": "revolute twist held after / before a prismatic one in a multi-valued `Twist3`",
+    "C19-r10-geom3d-Plucker-2": "lines moved by motions with rotations of 1e-9..1e-3 rad (`small_motions`)",
+    "C20-r10-spatialvector-SpatialInertia": "`inertia` events with mass and rotational inertia scaled by 1e-9, 1e-6, 1e6",
 }
 
 
